@@ -76,7 +76,7 @@ var props = map[string]*prop{
 		level: "exploration",
 		jobs: []job{
 			{name: "regress", run: "^TestRegress$", race: true},
-			{name: "plans", run: "^TestC12_Plans$", shards: [2]int{16, 16}, checks: [2]int{15, 1800}, race: true},
+			{name: "plans", run: "^TestC12_Plans$", shards: [2]int{16, 16}, checks: [2]int{15, 600}, race: true},
 		},
 		assumptions: append([]string{"the Go race detector (happens-before monitor) reports every unsynchronised pair of accesses that a run executes; schedules are sampled, not enumerated"}, baseAssumptions...),
 	},
@@ -85,8 +85,8 @@ var props = map[string]*prop{
 		jobs: []job{
 			regress,
 			{name: "pairs", run: "^TestC13_Pairs$", shards: [2]int{8, 16}},
-			{name: "histories", run: "^TestC13_Histories$", shards: [2]int{8, 16}, checks: [2]int{40, 3000}},
-			{name: "machine", run: "^TestC13_Machine$", shards: [2]int{4, 16}, checks: [2]int{600, 30000}},
+			{name: "histories", run: "^TestC13_Histories$", shards: [2]int{8, 16}, checks: [2]int{40, 1500}},
+			{name: "machine", run: "^TestC13_Machine$", shards: [2]int{4, 16}, checks: [2]int{600, 12000}},
 		},
 		assumptions: baseAssumptions,
 	},
@@ -116,7 +116,7 @@ var props = map[string]*prop{
 		jobs: []job{
 			regress,
 			{name: "concurrent", run: "^TestC04_Concurrent$", weight: 8},
-			{name: "seed", run: "^TestC04_Seed$", shards: [2]int{8, 16}, checks: [2]int{200, 15000}},
+			{name: "seed", run: "^TestC04_Seed$", shards: [2]int{8, 16}, checks: [2]int{200, 5000}},
 		},
 		assumptions: baseAssumptions,
 	},
